@@ -7,6 +7,8 @@ For a single-output model with un-batched training data, fantasy inputs X_f (m, 
   * the joint prior handed to the strategy update is forward([X; X_f]); the new strategy is prediction_strategy.get_fantasy_strategy(X_f, y_f,
     [X; X_f], [y; y_f], that prior[, noise]) and the new likelihood is likelihood.get_fantasy_likelihood([noise]) -- callee contracts (the update
     algebra of get_fantasy_strategy is compared with from-scratch conditioning in the bounded tier);
+  * DefaultPredictionStrategy.get_fantasy_strategy (un-batched single-output case) computes exactly the terms of the bordered-system update
+    (fantasy_strategy_update) and a Lean lemma (lean/Bordered.lean) shows that these terms solve the full system -- see the docstrings below;
   * FRAME: afterwards the source model holds the same train_inputs, train_targets, likelihood and prediction_strategy objects as before, and the
     copy is a different object (deepcopy modelled structurally, so aliasing between source and copy would be visible).
 """
@@ -173,3 +175,135 @@ def fixed_noise_fantasy_requires_noise(c):
     lik, fixed, mfn, n, B = fixed_setup(c, False, 0)
     exc = c.raises(lambda: c.it.call(c.ctx, c.getattr(lik, "get_fantasy_likelihood"), [], {}))
     c.prove("fantasy_likelihood.fixed_noise_without_noise_rejected", z3.BoolVal(exc is not None and exc.clsname == "RuntimeError"))
+
+
+# ------------------------------------------------------------------ the bordered-system update of the caches -------------------------
+PS = "gpytorch.models.exact_prediction_strategies.DefaultPredictionStrategy"
+
+
+@case("C04", clause="cache_update", name="fantasy_strategy_update", expand=lambda ix: [(detach,) for detach in (True, False)], replay=lambda *a: replay_c04(*a),
+      functions=[f"{PS}.get_fantasy_strategy", f"{PS}.__init__"], timeout=300)
+def fantasy_strategy_update(c, detach):
+    """get_fantasy_strategy (single-output, un-batched, per-call fantasy inputs) computes exactly the terms of the bordered-system lemma
+    (lean/Bordered.lean, checked by Lean on every run):
+        Q     = Kinv @ U^T            with Kinv the cached inverse decomposition of K = lik_train_train_covar          (callee: K Kinv = I)
+        Schur = S - U Q               with U = prior covariance (fantasy x train), S = covariance of fantasy_likelihood(N(mu_f, K_ff), X_f)
+        b     = cholesky_solve(y_f - mu_f - U alpha, cholesky(Schur))                                                 (callee: Schur b = rhs)
+        cache = [alpha - Q b ; b]
+    so that, by the lemma, [K U^T; U S] cache = [y - mu; y_f - mu_f] whenever K alpha = y - mu (C01's mean-cache contract): the carried solve equals
+    the solve recomputed from the full data.  The carried root / inverse root are those of K.cat_rows(U, S) (callee: the bordered matrix); the new strategy
+    is built on the full inputs / targets, the joint prior and the fantasy likelihood."""
+    from contracts.C01_exact_posterior import strategy, setting
+    from engine.dom_elem import mk_sum
+    it, ctx = c.it, c.ctx
+    n, m, d, r = c.size("n"), c.size("m"), c.size("d"), c.size("r")
+    c.assume(z3.And(n.t >= 1, m.t >= 1, r.t >= 1))
+    prior = make_mvn(c, "train_prior", [], n.t)
+    joint = make_mvn(c, "joint_prior", [], n.t + m.t)
+    mu, Sig = joint.fields["loc"], joint.fields["_covar"]
+    X, Xf = sym_tensor("X", [n.t, d.t]), sym_tensor("Xf", [m.t, d.t])
+    Xfull = sym_tensor("X_full", [n.t + m.t, d.t])
+    y, yf, yfull = sym_tensor("y", [n.t]), sym_tensor("yf", [m.t]), sym_tensor("y_full", [n.t + m.t])
+    alpha = sym_tensor("mean_cache", [n.t])
+    Q = sym_tensor("Kinv_times_Ut", [n.t, m.t])
+    S = sym_tensor("S_noisy_fantasy_covariance", [m.t, m.t])
+    Lf = sym_tensor("cholesky_of_schur", [m.t, m.t])
+    bsol = sym_tensor("b", [m.t, z3.IntVal(1)])
+    ROOT = sym_tensor("root_of_bordered", [n.t + m.t, r.t], is_linop=True)
+    IROOT = sym_tensor("inv_root_of_bordered", [n.t + m.t, r.t], is_linop=True)
+    rec = {"kinv_matmul": [], "cat_rows": [], "chol": [], "chol_solve": [], "fant_lik": [], "lik_kwargs": []}
+    kinv = Stub("K.root_inv_decomposition()", methods={"matmul": lambda a: (rec["kinv_matmul"].append(a), Q)[1]}, isa=("LinearOperator",))
+    new_lt = Stub("K.cat_rows(U, S)", methods={"root_decomposition": lambda *a, **k: Stub("root_decomposition", attrs={"root": ROOT}),
+                                                "root_inv_decomposition": lambda *a, **k: Stub("root_inv_decomposition", attrs={"root": IROOT})}, isa=("LinearOperator",))
+    K = Stub("lik_train_train_covar", methods={"root_inv_decomposition": lambda *a, **k: kinv, "cat_rows": lambda u, s, **k: (rec["cat_rows"].append((u, s)), new_lt)[1]}, isa=("LinearOperator",))
+    Knew = Stub("cov(fantasy_likelihood(joint prior))", isa=("LinearOperator",))
+    Knew.attrs["_memoize_cache"] = VDict()
+    mvn_obs = Stub("fantasy_likelihood(N(mu_f, K_ff), X_f)", attrs={"covariance_matrix": S}, isa=("MultivariateNormal",))
+    marg_full = Stub("fantasy_likelihood(joint prior, full inputs)", attrs={"lazy_covariance_matrix": Knew}, isa=("MultivariateNormal",))
+
+    def fl_call(*a, **k):
+        rec["fant_lik"].append((list(a), dict(k)))
+        return mvn_obs if len(rec["fant_lik"]) == 1 else marg_full
+
+    fant_lik = Stub("fantasy_likelihood", methods={"__call__": fl_call}, isa=("Likelihood", "Module"))
+    lik = Stub("likelihood", methods={"get_fantasy_likelihood": lambda **k: (rec["lik_kwargs"].append(dict(k)), fant_lik)[1]}, isa=("Likelihood", "Module"))
+    o = strategy(c, n.t, train_prior_dist=prior, likelihood=lik, train_inputs=VList([X]), train_labels=y, lik_train_train_covar=K)
+    it.attr_hooks.append(lambda it_, ctx_, obj, name: alpha if (obj is o and name == "mean_cache") else None)
+    it.optable["linear_operator.utils.cholesky.psd_safe_cholesky"] = lambda it_, ctx_, a, k: (rec["chol"].append(a[0]), Lf)[1]
+    it.optable["torch.cholesky_solve"] = lambda it_, ctx_, a, k: (rec["chol_solve"].append((a[0], a[1])), bsol)[1]
+    setting(c, "detach_test_caches", "_state", VBool(detach))
+    new = it.call(ctx, c.getattr(o, "get_fantasy_strategy"), [Xf, yf, VList([Xfull]), yfull, joint], {})
+    i, j, p, q = ivar("i"), ivar("j"), ivar("p"), ivar("q")
+    c.assume(z3.And(i >= 0, i < n.t, j >= 0, j < n.t, p >= 0, p < m.t, q >= 0, q < m.t))
+    ok = all(len(rec[k_]) == 1 for k_ in ("kinv_matmul", "cat_rows", "chol", "chol_solve", "lik_kwargs")) and len(rec["fant_lik"]) == 2
+    c.prove("update.each_callee_used_once", z3.BoolVal(ok), counts={k_: len(v) for k_, v in rec.items()})
+    if not ok:
+        return
+    U = lambda p_, i_: Sig.at([n.t + p_, i_])  # noqa: E731  fantasy x train block of the joint prior covariance
+    # the fantasy likelihood sees N(mu_f, K_ff) at the fantasy inputs
+    (a1, k1) = rec["fant_lik"][0]
+    fm = a1[0]
+    okm = isinstance(fm, VObj) and fm.cls.name == "MultivariateNormal" and len(a1) >= 2 and a1[1] is Xf
+    c.prove("update.fantasy_likelihood_applied_to_the_fantasy_block_of_the_joint_prior_at_Xf", z3.And(
+        fm.fields["loc"].at_dims([p]) == mu.at([n.t + p]), (fm.fields.get("_covar") if fm.fields.get("_covar") is not None else fm.fields["covariance_matrix"]).at_dims([p, q]) == Sig.at([n.t + p, n.t + q])) if okm else z3.BoolVal(False))
+    ut = rec["kinv_matmul"][0]
+    c.prove("update.Q_is_Kinv_times_U_transposed", z3.And(z3.BoolVal(len(ut.dims) == 2), ut.dims[0].size == n.t, ut.dims[1].size == m.t, ut.at_dims([i, p]) == U(p, i)) if len(ut.dims) == 2 else z3.BoolVal(False))
+    sch = rec["chol"][0]
+    c.prove("update.schur_complement_is_S_minus_U_Q", z3.And(z3.BoolVal(len(sch.dims) == 2), sch.at_dims([p, q]) == S.at([p, q]) - mk_sum(lambda t: U(p, t) * Q.at([t, q]), n.t)) if len(sch.dims) == 2 else z3.BoolVal(False))
+    rhs, fac = rec["chol_solve"][0]
+    c.prove("update.small_system_solved_with_the_schur_factor", z3.BoolVal(fac is Lf))
+    c.prove("update.small_system_rhs_is_yf_minus_muf_minus_U_alpha", z3.And(z3.BoolVal(len(rhs.dims) == 2), rhs.dims[1].size == 1,
+            rhs.at_dims([p, z3.IntVal(0)]) == yf.at([p]) - mu.at([n.t + p]) - mk_sum(lambda t: U(p, t) * alpha.at([t]), n.t)) if len(rhs.dims) == 2 else z3.BoolVal(False))
+    cu, cs = rec["cat_rows"][0]
+    c.prove("update.bordered_matrix_is_K_cat_rows_U_S", z3.And(z3.BoolVal(len(cu.dims) == 2 and len(cs.dims) == 2), cu.at_dims([p, i]) == U(p, i), cs.at_dims([p, q]) == S.at([p, q])) if len(cu.dims) == 2 and len(cs.dims) == 2 else z3.BoolVal(False))
+    okn = isinstance(new, VObj) and new is not o and new.cls.name == "DefaultPredictionStrategy"
+    c.prove("update.returns_a_new_strategy", z3.BoolVal(okn))
+    if not okn:
+        return
+    memo = new.fields.get("_memoize_cache")
+    cache = None
+    if memo is not None:
+        for kk, vv in memo.d.items():
+            if "mean_cache" in str(kk):
+                cache = vv
+    okc = cache is not None and hasattr(cache, "dims") and len(cache.dims) == 1
+    k_ = ivar("k")
+    c.assume(z3.And(k_ >= 0, k_ < n.t + m.t))
+    c.prove("update.new_mean_cache_is_alpha_minus_Q_b_then_b", z3.And(cache.dims[0].size == n.t + m.t, cache.at_dims([k_]) == z3.If(
+        k_ < n.t, alpha.at([k_]) - mk_sum(lambda t: Q.at([k_, t]) * bsol.at([t, z3.IntVal(0)]), m.t), bsol.at([k_ - n.t, z3.IntVal(0)]))) if okc else z3.BoolVal(False))
+    c.prove("update.new_strategy_built_on_full_data_joint_prior_and_fantasy_likelihood", z3.BoolVal(
+        new.fields.get("likelihood") is fant_lik and new.fields.get("train_labels") is not None and new.fields.get("lik_train_train_covar") is Knew
+        and isinstance(new.fields.get("train_inputs"), VList) and new.fields["train_inputs"].items[0] is Xfull))
+    tp = new.fields.get("train_prior_dist")
+    oktp = isinstance(tp, VObj) and tp.cls.name == "MultivariateNormal"
+    tcov = (tp.fields.get("_covar") if tp.fields.get("_covar") is not None else tp.fields.get("covariance_matrix")) if oktp else None
+    c.prove("update.new_train_prior_is_the_joint_prior", z3.And(tp.fields["loc"].at_dims([k_]) == mu.at([k_]), tcov.at_dims([k_, n.t + p]) == Sig.at([k_, n.t + p])) if oktp else z3.BoolVal(False))
+    yl = new.fields.get("train_labels")
+    c.prove("update.new_labels_are_the_full_targets", z3.And(z3.BoolVal(len(yl.dims) == 1), yl.at_dims([k_]) == yfull.at([k_])) if hasattr(yl, "dims") and len(yl.dims) == 1 else z3.BoolVal(False))
+    # carried decompositions: the roots of the bordered matrix, registered on the new training covariance
+    km = Knew.attrs["_memoize_cache"].d
+    got = {str(kk): vv for kk, vv in km.items()}
+    rd = next((vv for kk, vv in got.items() if "root_decomposition" in kk and "inv" not in kk), None)
+    ri = next((vv for kk, vv in got.items() if "root_inv_decomposition" in kk), None)
+    e = ivar("e")
+    c.assume(z3.And(e >= 0, e < n.t + m.t))
+    okr = rd is not None and ri is not None and hasattr(rd, "dims") and hasattr(ri, "dims") and len(rd.dims) == 2 and len(ri.dims) == 2
+    c.prove("update.carried_roots_are_those_of_the_bordered_matrix", z3.And(
+        rd.at_dims([k_, e]) == mk_sum(lambda t: ROOT.at([k_, t]) * ROOT.at([e, t]), r.t), ri.at_dims([k_, e]) == mk_sum(lambda t: IROOT.at([k_, t]) * IROOT.at([e, t]), r.t)) if okr else z3.BoolVal(False),
+        keys=sorted(got))
+    cc = None
+    for kk, vv in memo.d.items():
+        if "covar_cache" in str(kk):
+            cc = vv
+    okcc = cc is not None and hasattr(cc, "dims") and len(cc.dims) == 2
+    ec = ivar("col")
+    c.assume(z3.And(ec >= 0, ec < r.t))
+    c.prove("update.new_covar_cache_is_the_inverse_root_of_the_bordered_matrix", z3.And(cc.dims[1].size == r.t, cc.at_dims([k_, ec]) == IROOT.at([k_, ec])) if okcc else z3.BoolVal(False))
+
+
+@case("C04", clause="cache_update", name="bordered_system_lemma", expand=lambda ix: [()], replay=None, functions=[f"{PS}.get_fantasy_strategy"], timeout=1200)
+def bordered_system_lemma(c):
+    """lemma over the contracts of fantasy_strategy_update (Lean 4 / Mathlib, lean/Bordered.lean): for real matrices K, Kinv (n x n), U (m x n), S (m x m) with
+    K Kinv = 1, K alpha = y and (S - U (Kinv U^T)) b = y_f - U alpha, the vector [alpha - (Kinv U^T) b ; b] solves [K U^T; U S] x = [y; y_f]"""
+    c.ctx.assumptions.add("Lean 4.33 kernel and Mathlib are trusted for the lemma lean/Bordered.lean; it is stated over real matrices (floating-point rounding of the update is covered by the bounded tier only)")
+    c.prove_lemma("update.bordered_update_solves_the_full_system", "Bordered.lean", "bordered_update")
